@@ -155,6 +155,11 @@ func (c *ChunkBuffer) ChunkedString(level, offset int) string {
 	for {
 		chunk := c.nextChunk()
 		if chunk == nil {
+			// The line comment at the end must be terminated by a line feed,
+			// otherwise the following tokens on the line are commented out
+			if c.index >= 0 && c.chunks[c.index].isLineComment() {
+				return strings.TrimSpace(buf.String()) + c.nextLine(state)
+			}
 			return strings.TrimSpace(buf.String())
 		}
 
